@@ -34,6 +34,16 @@ def run(ctx):
         "16-bit overflow of `position` after very many prepends is not exercised (documented limitation upstream)",
     ]
     with core.Lock():
+        # T-tie: _add_to_collection_chain and the two position functions are translated from the working tree into Gen/ChainPy.lean
+        import sys as _sys
+
+        _sys.path.insert(0, os.path.join(core.VERIF, "translate"))
+        try:
+            import gen_chain
+
+            gen_chain.generate(core.GEN_DIR)
+        except Exception as e:  # Untranslatable or anything else: the tie is broken, the search below still runs
+            ctx.broken.append(f"translation: chain edits: {type(e).__name__}: {e}")
         built = core.lean_build(ctx, LEAN_TARGETS)
         if built:
             core.lean_audit(ctx, ["ButlerModel.Props.C03"])
